@@ -478,8 +478,39 @@ func c04R2(c *Ctx, p *Prog) {
 					}
 				}
 			case *ast.SwitchStmt:
+				// a tagless switch whose cases compare one selector with string literals (case p.tok == "ns":) is the
+				// same table: its tag is that selector
+				tagless := map[*ast.CaseClause][]string{}
 				if x.Tag == nil {
-					return true
+					var tag ast.Expr
+					for _, cl := range x.Body.List {
+						cc := cl.(*ast.CaseClause)
+						for _, e := range cc.List {
+							be, ok := e.(*ast.BinaryExpr)
+							if !ok || be.Op != token.EQL {
+								continue
+							}
+							sel, lit := be.X, be.Y
+							if tv := info.Types[sel]; tv.Value != nil {
+								sel, lit = be.Y, be.X
+							}
+							tv := info.Types[lit]
+							if tv.Value == nil || tv.Value.Kind() != constant.String {
+								continue
+							}
+							if _, isSel := sel.(*ast.SelectorExpr); !isSel {
+								continue
+							}
+							if tag == nil || types.ExprString(tag) == types.ExprString(sel) {
+								tag = sel
+								tagless[cc] = append(tagless[cc], constant.StringVal(tv.Value))
+							}
+						}
+					}
+					if tag == nil {
+						return true
+					}
+					x = &ast.SwitchStmt{Switch: x.Switch, Tag: tag, Body: x.Body}
 				}
 				tt, ok := info.Types[x.Tag]
 				if !ok || !isString(tt.Type) {
@@ -506,6 +537,7 @@ func c04R2(c *Ctx, p *Prog) {
 							ks = append(ks, constant.StringVal(tv.Value))
 						}
 					}
+					ks = append(ks, tagless[cc]...)
 					if len(ks) == 0 {
 						continue
 					}
